@@ -9,8 +9,8 @@ for name in sorted(os.listdir(os.path.join(V, "seeded"))):
     if flt not in name:
         continue
     d = os.path.join(V, "seeded", name)
-    meta = json.load(open(os.path.join(d, "meta.json")))
-    prop = meta["property"]
+    mp = os.path.join(d, "meta.json")
+    prop = json.load(open(mp))["property"] if os.path.exists(mp) else name[:3]
     r = subprocess.run([os.path.join(V, "tools/mutant.py"), os.path.join(d, "patch.diff"), "--checks", prop],
                        stdout=subprocess.PIPE, stderr=subprocess.STDOUT, text=True)
     caught = "CAUGHT BY: " + prop in r.stdout
